@@ -98,6 +98,20 @@ var scenarios = []*scenario{
 		depth:    [2]int{4, 6},
 	},
 	{
+		// special proposals aimed at running proposals: A and B voter-agreed at 14; at 15 E (close
+		// A), F (hand B to a new owner / recipient) and D (new secretary-general) are registered,
+		// approved by the council at 16, council-agreed at 17 and decided at 19. Free blocks
+		// (17..): the target is finalised, terminated, progressed, paid or left running before the
+		// close proposal is decided, or the close proposal is voted down.
+		name: "special-proposals",
+		warm: append(append([]string{}, electAndFund...), "prop:A:c1+prop:B:c2", "rev2:A:a+rev2:B:a", "e3",
+			"close:E:A:c1+chown:F:B:c2+sg:D:c2", "rev2:E:a+rev2:F:a+rev2:D:a"),
+		alphabet: []string{"e", "trk:A:finalized", "trk:A:terminated", "trk:A:progress", "wd:A", "wd:B", "rej:vr:E:big",
+			"trk:B:progress"},
+		extra: []string{"e2", "realwd", "rej:vr:F:big", "trk:B:finalized", "wd:A+wd:B"},
+		depth: [2]int{4, 6},
+	},
+	{
 		// as above, then A's imprest requested and paid, stage 1 of A released by tracking.
 		name: "late-stages",
 		warm: append(append([]string{}, electAndFund...), "prop:A:c1+prop:B:c2", "rev2:A:a+rev2:B:a", "e3", "wd:A", "realwd",
@@ -388,7 +402,7 @@ func (in *inst) byHash(h common.Uint256) *propRef {
 }
 
 func labelOfDraft(h common.Uint256) string {
-	for _, l := range []string{"A", "B", "C", "D", "E"} {
+	for _, l := range []string{"A", "B", "C", "D", "E", "F"} {
 		if crkit.DraftHash(l).IsEqual(h) {
 			return l
 		}
